@@ -36,6 +36,7 @@ use serde_json::value::RawValue;
 use std::collections::BTreeMap;
 use std::future::Future;
 use std::io::{BufRead, Write};
+use std::option;
 use std::sync::{Arc, Mutex};
 use std::time::Duration;
 use tokio::sync::mpsc;
@@ -180,6 +181,31 @@ pub trait Raw {
 	async fn sub_raw(&self, r#type: u32, r#ref: String) -> SubscriptionResult;
 	#[subscription(name = "subscribeRawArr", item = u64, aliases = ["rawArrAlias"])]
 	async fn sub_raw_arr(&self, r#type: u32, r#while: Option<u64>) -> SubscriptionResult;
+}
+#[rpc(client, server, namespace = "sp")]
+pub trait Spell {
+	#[method(name = "stdTail")]
+	fn std_tail(&self, a: u32, b: std::option::Option<u32>) -> RpcResult<(u32, Option<u32>)>;
+	#[method(name = "coreTail")]
+	async fn core_tail(&self, a: u8, b: core::option::Option<String>) -> RpcResult<(u8, Option<String>)>;
+	#[method(name = "globalTail", blocking)]
+	fn global_tail(&self, a: String, b: ::core::option::Option<u64>) -> RpcResult<(String, Option<u64>)>;
+	#[method(name = "modTail")]
+	fn mod_tail(&self, a: i16, b: option::Option<u8>) -> RpcResult<(i16, Option<u8>)>;
+	#[method(name = "mixTail")]
+	async fn mix_tail(&self, a: u32, b: Option<u32>, c: std::option::Option<u32>, d: core::option::Option<String>, e: ::core::option::Option<u64>) -> RpcResult<(u32, Option<u32>, Option<u32>, Option<String>, Option<u64>)>;
+	#[method(name = "allSpell", blocking)]
+	fn all_spell(&self, a: core::option::Option<String>, b: option::Option<u8>, c: Option<u32>) -> RpcResult<(Option<String>, Option<u8>, Option<u32>)>;
+	#[method(name = "coreMid")]
+	fn core_mid(&self, a: core::option::Option<String>, b: u16) -> RpcResult<(Option<String>, u16)>;
+	#[method(name = "mapSpell", param_kind = map)]
+	fn map_spell(&self, a: u32, b: core::option::Option<String>, c: ::core::option::Option<u64>, d: std::option::Option<u32>) -> RpcResult<(u32, Option<String>, Option<u64>, Option<u32>)>;
+	#[method(name = "mapSpellAsync", param_kind = map)]
+	async fn map_spell_async(&self, key: String, val: option::Option<u8>, more: core::option::Option<String>) -> RpcResult<(String, Option<u8>, Option<String>)>;
+	#[subscription(name = "subscribeSpell", item = (u32, Option<String>, Option<u64>), aliases = ["spellAlias"])]
+	async fn sub_spell(&self, a: u32, b: core::option::Option<String>, c: ::core::option::Option<u64>) -> SubscriptionResult;
+	#[subscription(name = "subscribeSpellMap", item = u64, param_kind = map)]
+	async fn sub_spell_map(&self, n: u32, k: std::option::Option<u32>) -> SubscriptionResult;
 }
 // FAMILY-END
 
@@ -444,6 +470,59 @@ impl RawServer for Impl {
 		let args = serde_json::to_vec(&(r#type, r#while)).unwrap();
 		let items: Vec<u64> = (0..(1 + (r#type % 3) as u64)).map(|i| wadd(r#while.unwrap_or(5), i)).collect();
 		serve_sub(self.0.clone(), "5.s1", args, pending, items).await;
+		Ok(())
+	}
+}
+
+// the impl spells the types the short way: the qualified spellings matter only in the trait text the macro reads
+#[async_trait]
+impl SpellServer for Impl {
+	fn std_tail(&self, a: u32, b: Option<u32>) -> RpcResult<(u32, Option<u32>)> {
+		self.0.rec("6.m0", &(a, b))?;
+		Ok((a, b))
+	}
+	async fn core_tail(&self, a: u8, b: Option<String>) -> RpcResult<(u8, Option<String>)> {
+		self.0.rec("6.m1", &(a, &b))?;
+		Ok((a, b))
+	}
+	fn global_tail(&self, a: String, b: Option<u64>) -> RpcResult<(String, Option<u64>)> {
+		self.0.rec("6.m2", &(&a, b))?;
+		Ok((a, b))
+	}
+	fn mod_tail(&self, a: i16, b: Option<u8>) -> RpcResult<(i16, Option<u8>)> {
+		self.0.rec("6.m3", &(a, b))?;
+		Ok((a, b))
+	}
+	async fn mix_tail(&self, a: u32, b: Option<u32>, c: Option<u32>, d: Option<String>, e: Option<u64>) -> RpcResult<(u32, Option<u32>, Option<u32>, Option<String>, Option<u64>)> {
+		self.0.rec("6.m4", &(a, b, c, &d, e))?;
+		Ok((a, b, c, d, e))
+	}
+	fn all_spell(&self, a: Option<String>, b: Option<u8>, c: Option<u32>) -> RpcResult<(Option<String>, Option<u8>, Option<u32>)> {
+		self.0.rec("6.m5", &(&a, b, c))?;
+		Ok((a, b, c))
+	}
+	fn core_mid(&self, a: Option<String>, b: u16) -> RpcResult<(Option<String>, u16)> {
+		self.0.rec("6.m6", &(&a, b))?;
+		Ok((a, b))
+	}
+	fn map_spell(&self, a: u32, b: Option<String>, c: Option<u64>, d: Option<u32>) -> RpcResult<(u32, Option<String>, Option<u64>, Option<u32>)> {
+		self.0.rec("6.m7", &(a, &b, c, d))?;
+		Ok((a, b, c, d))
+	}
+	async fn map_spell_async(&self, key: String, val: Option<u8>, more: Option<String>) -> RpcResult<(String, Option<u8>, Option<String>)> {
+		self.0.rec("6.m8", &(&key, val, &more))?;
+		Ok((key, val, more))
+	}
+	async fn sub_spell(&self, pending: PendingSubscriptionSink, a: u32, b: Option<String>, c: Option<u64>) -> SubscriptionResult {
+		let args = serde_json::to_vec(&(a, &b, c)).unwrap();
+		let items: Vec<(u32, Option<String>, Option<u64>)> = (0..(1 + a % 3)).map(|i| (a.wrapping_add(i), b.clone(), c)).collect();
+		serve_sub(self.0.clone(), "6.s0", args, pending, items).await;
+		Ok(())
+	}
+	async fn sub_spell_map(&self, pending: PendingSubscriptionSink, n: u32, k: Option<u32>) -> SubscriptionResult {
+		let args = serde_json::to_vec(&(n, k)).unwrap();
+		let items: Vec<u64> = (0..(1 + (n % 3) as u64)).map(|i| wadd(k.unwrap_or(9) as u64, i)).collect();
+		serve_sub(self.0.clone(), "6.s1", args, pending, items).await;
 		Ok(())
 	}
 }
@@ -732,6 +811,23 @@ async fn run_stub(apis: &[Api], sh: &Arc<Shared>, api: usize, m: &str, args: &[u
 			let (a, b): (u32, Option<u64>) = serde_json::from_slice(args).expect("typed args of the case");
 			drain::<u64>(sh, c.sub_raw_arr(a, b).await).await
 		}
+		(6, "m0") => stub!(args; c, std_tail; a: u32, b: Option<u32>),
+		(6, "m1") => stub!(args; c, core_tail; a: u8, b: Option<String>),
+		(6, "m2") => stub!(args; c, global_tail; a: String, b: Option<u64>),
+		(6, "m3") => stub!(args; c, mod_tail; a: i16, b: Option<u8>),
+		(6, "m4") => stub!(args; c, mix_tail; a: u32, b: Option<u32>, cc: Option<u32>, d: Option<String>, e: Option<u64>),
+		(6, "m5") => stub!(args; c, all_spell; a: Option<String>, b: Option<u8>, cc: Option<u32>),
+		(6, "m6") => stub!(args; c, core_mid; a: Option<String>, b: u16),
+		(6, "m7") => stub!(args; c, map_spell; a: u32, b: Option<String>, cc: Option<u64>, d: Option<u32>),
+		(6, "m8") => stub!(args; c, map_spell_async; a: String, b: Option<u8>, cc: Option<String>),
+		(6, "s0") => {
+			let (a, b, cc): (u32, Option<String>, Option<u64>) = serde_json::from_slice(args).expect("typed args of the case");
+			drain::<(u32, Option<String>, Option<u64>)>(sh, c.sub_spell(a, b, cc).await).await
+		}
+		(6, "s1") => {
+			let (a, b): (u32, Option<u32>) = serde_json::from_slice(args).expect("typed args of the case");
+			drain::<u64>(sh, c.sub_spell_map(a, b).await).await
+		}
 		_ => "c:fail:".to_string() + &hex(b"no such stub"),
 	}
 }
@@ -865,6 +961,7 @@ fn main() {
 			mk_api(GlueServer::into_rpc(Impl(sh.clone())).into(), &sh),
 			mk_api(NegServer::into_rpc(Impl(sh.clone())).into(), &sh),
 			mk_api(RawServer::into_rpc(Impl(sh.clone())).into(), &sh),
+			mk_api(SpellServer::into_rpc(Impl(sh.clone())).into(), &sh),
 		];
 		let stdin = std::io::stdin();
 		let stdout = std::io::stdout();
